@@ -162,7 +162,15 @@ fn run_ops(cfg: &fastcgi_server::Config, full: &[u8], gate0: usize, ops: &[Vec<u
             },
             6 => {
                 p.set_stream(None).expect("None is always allowed");
-                let (out2, code) = to_boundary(&mut p, wire, &mut pos);
+                // [6, k, 1]: like Request::close, do not parse at all when already at a record boundary
+                let (out2, code) = if a2 == 1 && p.is_record_boundary() {
+                    // close writes the pending replies first
+                    let o = p.output_buffer().to_vec();
+                    p.consume_output(o.len());
+                    (o, 0)
+                } else {
+                    to_boundary(&mut p, wire, &mut pos)
+                };
                 if code != 0 {
                     res.push(vec![7, code]);
                     res.push(nums(&out2));
@@ -177,7 +185,8 @@ fn run_ops(cfg: &fastcgi_server::Config, full: &[u8], gate0: usize, ops: &[Vec<u
                         gate = (gate + a1 as usize).min(full.len());
                         wire = &full[..gate];
                         let mut out3 = Vec::new();
-                        let (done, unfed) = feed(&mut rp, &wire[pos..], &[], &mut out3);
+                        // like Token::parse_request: first a parse call without new input (the leftover may fill the whole buffer)
+                        let (done, unfed) = feed(&mut rp, &wire[pos..], &[0], &mut out3);
                         pos = wire.len() - unfed;
                         match rp.into_stream_parser() {
                             Ok(p3) => {
